@@ -574,58 +574,65 @@ func execC01(raw json.RawMessage, wantLog bool) (out Outcome) {
 		out.Log = ir.log
 	}()
 	removes, handovers := 0, 0
-	for _, op := range c.Ops {
-		switch op.K {
-		case "ins", "rem", "upd":
-			var epBefore uuid.UUID
-			if op.K != "ins" {
-				d := ir.idx.VerifDump()
-				epBefore = d.Entrypoint
-				if d.HasEntrypoint && d.Entrypoint == idOf(op.Id) {
-					handovers++
-					out.Stat("entry_point_removed", 1)
-				}
-			}
-			_ = epBefore
-			n := len(ir.model)
-			ir.applyMut(op)
-			if len(ir.model) < n {
-				removes++
-			}
-		case "load", "loadsame":
-			if len(ir.model) == 0 && !(op.K == "loadsame" && op.Rd == 1) {
-				continue // empty-state round trip is C08's subject - except for what a search sees after
-				// the snapshot of an emptied index was loaded into an index that holds items
-			}
-			if len(ir.model) == 0 {
-				out.Stat("empty_snapshot_loaded_into_used_index", 1)
-			}
-			target := newIndex(c.Cfg)
-			if op.K == "loadsame" {
-				// what a lagging follower does: the snapshot is loaded into the index that is in use
-				// (either the very same object, or a used index that holds other items)
-				if op.Rd == 1 {
-					t := &idxRun{cfg: c.Cfg, idx: target, model: map[int]*mItem{}, out: &Outcome{}}
-					for j := 0; j < 5; j++ {
-						t.applyMut(IdxOp{K: "ins", Id: 500 + j, Vec: genVec(simrt.NewRand(uint64(j)+7), c.Cfg.Dim, false, c.Cfg.Space == 3), Lvl: j % 2})
+	// (guarded: a path of the index that takes one of its locks twice must not hang the harness)
+	if runGuarded(func() {
+		for _, op := range c.Ops {
+			switch op.K {
+			case "ins", "rem", "upd":
+				var epBefore uuid.UUID
+				if op.K != "ins" {
+					d := ir.idx.VerifDump()
+					epBefore = d.Entrypoint
+					if d.HasEntrypoint && d.Entrypoint == idOf(op.Id) {
+						handovers++
+						out.Stat("entry_point_removed", 1)
 					}
-				} else {
-					target = ir.idx
 				}
-				out.Stat("snapshot_loads_into_used_index", 1)
+				_ = epBefore
+				n := len(ir.model)
+				ir.applyMut(op)
+				if len(ir.model) < n {
+					removes++
+				}
+			case "load", "loadsame":
+				if len(ir.model) == 0 && !(op.K == "loadsame" && op.Rd == 1) {
+					continue // empty-state round trip is C08's subject - except for what a search sees after
+					// the snapshot of an emptied index was loaded into an index that holds items
+				}
+				if len(ir.model) == 0 {
+					out.Stat("empty_snapshot_loaded_into_used_index", 1)
+				}
+				target := newIndex(c.Cfg)
+				if op.K == "loadsame" {
+					// what a lagging follower does: the snapshot is loaded into the index that is in use
+					// (either the very same object, or a used index that holds other items)
+					if op.Rd == 1 {
+						t := &idxRun{cfg: c.Cfg, idx: target, model: map[int]*mItem{}, out: &Outcome{}}
+						for j := 0; j < 5; j++ {
+							t.applyMut(IdxOp{K: "ins", Id: 500 + j, Vec: genVec(simrt.NewRand(uint64(j)+7), c.Cfg.Dim, false, c.Cfg.Space == 3), Lvl: j % 2})
+						}
+					} else {
+						target = ir.idx
+					}
+					out.Stat("snapshot_loads_into_used_index", 1)
+				}
+				res := ir.saveLoad(IdxOp{Hdr: op.Hdr}, target)
+				if res.saveErr != nil || res.loadErr != nil || res.panicked != "" {
+					ir.logf("load skipped: save=%v load=%v panic=%v", res.saveErr, res.loadErr, res.panicked != "")
+					out.Stat("snapshot_roundtrip_failed_skipped(C08 domain)", 1)
+					continue
+				}
+				ir.idx = target
+				ir.logf("load ok n=%d", target.Len())
+				out.Stat("snapshot_loads", 1)
+			case "search":
+				ir.checkSearch(op, "C01")
 			}
-			res := ir.saveLoad(IdxOp{Hdr: op.Hdr}, target)
-			if res.saveErr != nil || res.loadErr != nil || res.panicked != "" {
-				ir.logf("load skipped: save=%v load=%v panic=%v", res.saveErr, res.loadErr, res.panicked != "")
-				out.Stat("snapshot_roundtrip_failed_skipped(C08 domain)", 1)
-				continue
-			}
-			ir.idx = target
-			ir.logf("load ok n=%d", target.Len())
-			out.Stat("snapshot_loads", 1)
-		case "search":
-			ir.checkSearch(op, "C01")
 		}
+	}) {
+		out.Poisoned = true
+		out.Violate("C01", "deadlock/single-caller", "a single caller applying the history blocks for ever on an index lock it holds itself")
+		return
 	}
 	if d := ir.idx.VerifDump(); tombstoneLinks(d) > 0 {
 		out.Stat("final_state_has_links_to_tombstones", 1)
